@@ -60,6 +60,10 @@ void __CPROVER_assert(_Bool c, const char* msg) {
   if (msg && strncmp(msg, "VF-WITNESS", 10) == 0) { printf("VF-WITNESS-REACHED\n"); fflush(stdout); _Exit(0); }
   printf("VF-ASSERT-FAIL: %s\n", msg ? msg : "?"); fflush(stdout); _Exit(1);
 }
+_Bool vf_str_disjunct(void* self, void* s) {   /* std::string::_M_disjunct, see ir2c.py */
+  uintptr_t d = *(const uintptr_t*)self, n = ((const uintptr_t*)self)[1], p = (uintptr_t)s;
+  return p < d || d + n < p;
+}
 void __CPROVER_atomic_begin(void) {}
 void __CPROVER_atomic_end(void) {}
 
